@@ -20,6 +20,9 @@ package pebble
 //@ ghostfield any.updName map[string]string
 //@ ghostfield any.vCur map[string]string
 //@ ghostfield any.dCur map[string]string
+// syncedPath[p]: the CONTENT of file p has been fsynced (process-wide ghost on `world`); fpath: the path a file handle was created under
+//@ ghostfield any.syncedPath map[string]Bool
+//@ ghostfield any.fpath string
 // opened[p]: a pebble DB has been opened in directory p (its content was read and validated)
 //@ ghostfield any.opened map[string]Bool
 //@ iface vfs.FS.MkdirAll
@@ -57,19 +60,20 @@ package pebble
 // SaveCurrentDBDirName: writes and fsyncs d/current.updating holding the name (md5 + write: ASSUMED)
 //@ func SaveCurrentDBDirName
 //@   assumed
-//@   ensures result == nil ==> fs.updName[dir] == dbdir
+//@   ensures result == nil ==> fs.updName[dir] == dbdir && world.syncedPath[pjoin(dir, "current.updating")]      // the content sync is proved by the secondary contract SaveCurrentDBDirName#sync
 // its deferred directory sync (whose error the code ignores: sync failures are outside the crash-only fault model) makes the entries of dir durable
 //@   ensures result == nil ==> forall p string :: parentOf(p) == dir && old(fs.vHas[p]) ==> fs.dHas[p]
 //@   ensures forall p string :: old(fs.dHas[p]) && old(fs.vHas[p]) ==> fs.dHas[p] && fs.vHas[p]
 //@   ensures forall p string :: old(fs.vHas[p]) ==> fs.vHas[p]
 //@   ensures forall d string :: fs.dCur[d] == old(fs.dCur[d]) && fs.vCur[d] == old(fs.vCur[d])
-//@   modifies fs.updName, fs.vHas, fs.dHas
+//@   modifies fs.updName, fs.vHas, fs.dHas, world.syncedPath
 
 // ReplaceCurrentDBFile: the durable switch. The directory the new name points to must already be
 // durable - otherwise a crash after the switch leaves `current` naming a directory that does not
 // exist, and the table can never be opened again.
 //@ func ReplaceCurrentDBFile
 //@   requires fs != nil
+//@   requires [C04.switch.content] world.syncedPath[pjoin(dir, "current.updating")]
 //@   requires [C04.switch.target] fs.dHas[pjoin(dir, fs.updName[dir])]
 //@   ensures [C04.switch.durable] result == nil ==> fs.dCur[dir] == old(fs.updName[dir]) && fs.vCur[dir] == old(fs.updName[dir])
 //@   ensures [C04.switch.keeps] forall p string :: p != pjoin(dir, "current.updating") && old(fs.dHas[p]) && old(fs.vHas[p]) ==> fs.dHas[p]
@@ -98,3 +102,32 @@ package pebble
 //@   ensures old(fs.vHas[pjoin(dir, fs.vCur[dir])]) ==> fs.vHas[pjoin(dir, fs.vCur[dir])]
 //@   ensures old(fs.dHas[pjoin(dir, fs.vCur[dir])]) ==> fs.dHas[pjoin(dir, fs.vCur[dir])]
 //@   modifies fs.vHas, fs.dHas
+
+// secondary contract, verified against the body: on success the content of current.updating has been
+// fsynced before the function returns (so the rename that follows cannot expose an empty or torn file)
+//@ iface vfs.FS.Create
+//@   assumed
+//@   params fs, name
+//@   results f, err
+//@   ensures err == nil ==> f != nil && f.fpath == name
+//@   ensures forall q string :: old(fs.vHas[q]) ==> fs.vHas[q]
+//@   modifies fs.vHas
+//@ iface vfs.File.Sync
+//@   assumed
+//@   params f
+//@   ensures result == nil ==> world.syncedPath[f.fpath]
+//@   ensures forall q string :: old(world.syncedPath[q]) ==> world.syncedPath[q]
+//@   modifies world.syncedPath
+//@ iface vfs.File.Close
+//@   assumed
+//@   modifies nothing
+//@ iface vfs.File.Write
+//@   assumed
+//@   modifies nothing
+//@ func SaveCurrentDBDirName$1
+//@   assumed
+//@   modifies (*fs).dHas, (*fs).dCur
+//@ func SaveCurrentDBDirName#sync
+//@   requires fs != nil
+//@   ensures [C04.save.synced] result == nil ==> world.syncedPath[pjoin(dir, "current.updating")]
+//@   modifies fs.vHas, fs.dHas, fs.dCur, world.syncedPath, family(G_any_sdata), family(G_any_slen), family(G_any_nmsg), family(G_any_msg)
